@@ -225,18 +225,31 @@ def geom_one(ctx, prog, S, C, I):
     ctx.ob(rule, "id = poolIndex*POOL_CAPACITY + index [%s]" % tag, True if idok else None, al.where,
            "" if idok else "id expression of allocFromLastPool not recognised")
     # MemoryPool::allocSlot: index = usage_++ dominated by !(usage_ >= capacity_)
-    gok = False
+    writes = []
     for i in mp.walk():
         st = mp.s(i)
         if st["k"] == "UnaryOperator" and st["op"] == "++" and member_name(mp, st["c"][0]) == "usage_":
-            for cond, pol in mp.guards_of(i):
-                c = mp.s(mp.strip(cond, casts=True))
-                if c["k"] == "BinaryOperator" and c["op"] in (">=", "<", "==", "!="):
-                    ms = {member_name(mp, x) for x in c["c"]}
-                    if ms == {"usage_", "capacity_"} and ((c["op"] in (">=", "==") and pol is False) or (c["op"] in ("<", "!=") and pol is True)):
-                        gok = True
+            writes.append(i)
+        elif st["k"] in ("BinaryOperator", "CompoundAssignOperator") and st["op"] in ("=", "+=") and member_name(mp, st["c"][0]) == "usage_":
+            writes.append(i)
+    gok = None
+    for i in writes:
+        g = False
+        for cond, pol in mp.guards_of(i):
+            c = mp.s(mp.strip(cond, casts=True))
+            if c["k"] == "BinaryOperator" and c["op"] in (">=", "<", "==", "!=", ">", "<="):
+                ms = [member_name(mp, x) for x in c["c"]]
+                op = c["op"]
+                if ms == ["capacity_", "usage_"]:
+                    op = {">=": "<=", "<": ">", "==": "==", "!=": "!=", ">": "<", "<=": ">="}[op]
+                    ms = ["usage_", "capacity_"]
+                if ms == ["usage_", "capacity_"] and ((op in (">=", "==") and pol is False) or (op in ("<", "!=") and pol is True)):
+                    g = True
+        gok = g if gok is None else (gok and g)
     ctx.ob(rule, "slot index < pool capacity [%s]" % tag, gok, mp.where,
-           "usage_++ dominated by usage_ < capacity_" if gok else "MemoryPool::allocSlot hands out usage_++ without the usage_ < capacity_ guard")
+           "every advance of usage_ is dominated by usage_ < capacity_" if gok else
+           ("no write to usage_ found in MemoryPool::allocSlot" if gok is None else
+            "MemoryPool::allocSlot advances usage_ without the usage_ < capacity_ guard"))
 
     # ---- A: arithmetic on the constants
     worst = None
